@@ -14,6 +14,36 @@ ASSUMPTIONS = ['fault-free = the checked run raised no fault flag']
 FAULT_FLAGS = {'stack_overflow', 'division_by_zero', 'out_of_bounds', 'nonlocal_preempt'}
 
 
+def guarded_operand_units(rng, n, ws):
+    """every guarded operation (string / array index, division, modulo, nested index, call on an element) as the left and right operand of
+    every kind of binary operator, as a call argument next to another one, and as an index: without the guard the operation still needs
+    its registers, so a neighbouring operand must still be saved"""
+    atoms = ['s[i]', 't[j]', 's[j]', 'ia[i]', 'ia[j]', 'ba[i]', 'ba[j]', 'ga[i]', '(x / y)', '(x % y)', '(ia[j] / y)', 'strs[k][i]', 'strs[1][j]', 'ia[ia[k]]', 's[ia[k]]',
+             'idf(s[i])', 'idf(ia[j])', 'sl(t)', 's.length', 'x', '7', '(s[i] is int)', '(-ia[i])']
+    batoms = ['bb[i]', 'bb[j]', '(s[i] == t[i])', '(ia[i] < s[j])', '(x / y > 1)', 'bb[ia[k]]']
+    units = []
+    for _ in range(n):
+        lines = []
+        for _ in range(8):
+            c = rng.random()
+            a, b, c3 = rng.choice(atoms), rng.choice(atoms), rng.choice(atoms)
+            if c < 0.45:
+                lines.append('write(%s %s %s); write(\' \');' % (a, rng.choice(['+', '-', '*']), b))
+            elif c < 0.7:
+                lines.append('write(%s %s %s);' % (a, rng.choice(['==', '!=', '<', '>', '<=', '>=']), b))
+            elif c < 0.8:
+                lines.append('write(%s %s %s);' % (rng.choice(batoms), rng.choice(['and', 'or', '==']), rng.choice(batoms)))
+            elif c < 0.9:
+                lines.append('write(two(%s, %s)); write(\' \');' % (a, b))
+            else:
+                lines.append('if (%s %s %s * %s) { write("y"); } else { write("n"); }' % (a, rng.choice(['<', '==', '>=']), b, c3))
+        src = ('int[] ga = [3, 1, 2, 0];\nint idf(int v) { return v + 1; }\nint sl(string q) { return q.length; }\nint two(int p, int q) { return p * 10 + q; }\n'
+               'empty @is_you(int i, int j, int k) {\n  string s = "abcd"; string t = "abxd"; string[] strs = ["wxyz", "hijk", "lmno"]; int[] ia = [2, 0, 3, 1]; byte[] ba = [\'p\', \'q\', \'r\', \'s\'];\n'
+               '  bool[] bb = [true, false, true, false]; int x = 17 + i; int y = 3 + j;\n  ' + '\n  '.join(lines) + '\n}\n')
+        units.append((src, [Cfg((str(i), str(j), str(k)), w, 300, False) for (i, j, k) in ((0, 1, 2), (3, 2, 0), (1, 3, 1)) for w in ws[:2]]))
+    return units
+
+
 def run(ctx):
     rng = random.Random(ctx.seed)
     q = ctx.tier == 'quick'
@@ -22,6 +52,7 @@ def run(ctx):
     base += C02.history_units(rng, 60 if q else 800, ws, ctx.seed + 1501, per=3)
     import genhist
     base += genhist.directed_units(ws[:2])
+    base += guarded_operand_units(rng, 30 if q else 300, ws)
     units = [(src, [c for cfg in cfgs for c in (cfg, cfg._replace(unchecked=True))]) for src, cfgs in base]
     results = diffrun.run_units(units, want_ref=False)
     pairs = faultfree = 0
